@@ -219,7 +219,7 @@ def model_check(work, runs):
     return states, trans, details
 
 
-def validate_traces(work, module, cfg, shards, heap="3g", timeout=1800, par=None, consts=None):
+def validate_traces(work, module, cfg, shards, heap="3g", timeout=1800, par=None, consts=None, want_extra=False):
     """Each shard (list of events) is written as trace.ndjson in its own dir and validated by the monitor-style
     trace spec `module`. Returns (accepted_count, bad_list, tlc_states, tlc_trans) where bad entries are dicts
     {shard, l, why, event}."""
@@ -248,15 +248,20 @@ def validate_traces(work, module, cfg, shards, heap="3g", timeout=1800, par=None
         for b in v["bad"]:
             bad.append(dict(shard=idx, l=b["l"], why=b["why"], event=evs[b["l"] - 1]))
         shutil.rmtree(sub, ignore_errors=True)
-        return len(evs) - len({b["l"] for b in bad}), bad, res.distinct, res.generated
+        extra = {k: x for k, x in v.items() if k not in ("n", "bad")}
+        return len(evs) - len({b["l"] for b in bad}), bad, res.distinct, res.generated, extra
 
     acc, bad, st, tr = 0, [], 0, 0
+    extras = []
     with ThreadPoolExecutor(max_workers=par) as ex:
-        for a, b, s, t in ex.map(one, range(len(shards))):
+        for a, b, s, t, x in ex.map(one, range(len(shards))):
             acc += a
             bad += b
             st += s
             tr += t
+            extras.append(x)
+    if want_extra:
+        return acc, bad, st, tr, extras
     return acc, bad, st, tr
 
 
